@@ -22,6 +22,13 @@ def main():
         tqdm.tqdm.monitor_interval = 0
     except Exception:
         pass
+    cov = None
+    if os.environ.get("VP_COVERAGE"):           # development aid (tools/cov.py): which library lines a check executes
+        import coverage
+        os.environ.setdefault("COVERAGE_CORE", "sysmon")
+        cov = coverage.Coverage(data_file=os.path.join(os.environ["VP_COVERAGE"], f"cov.{os.getpid()}"),
+                                include=[os.path.join(os.environ.get("VP_REPO", "/repo"), "pyxel", "*")])
+        cov.start()
     mod = importlib.import_module(sys.argv[1])
     for line in sys.stdin:
         line = line.strip()
@@ -39,6 +46,9 @@ def main():
             res = {"harness_error": traceback.format_exc()}
         proto.write(json.dumps(res, default=str) + "\n")
         proto.flush()
+    if cov is not None:
+        cov.stop()
+        cov.save()
 
 
 if __name__ == "__main__":
